@@ -174,6 +174,8 @@ def run(tier, seed, replay=None):
                     worst = (txt, o, msg)
             if worst:
                 rep.violation(f"[{cfg}] reported solution violates an asserted constraint: {worst[2][:300]}", e2e.replay_of(worst[0], cfg, worst[1]), tags={"enum:" + cfg})
+        from . import corpus
+        stats[("both", "corpus", "runs")] = sum(corpus.run(rep, PROP, tier).values())
     except vlib.BuildFailure as e:
         rep.violation("the solver does not build in a supported configuration", {"kind": "build", "theorem_or_correspondence": "cmake build of /repo", "log": str(e)}, no_input=True)
     rep.cov.update({
